@@ -23,8 +23,9 @@ from symx.fsmodel import ModelEnv, Killed, Scheduler
 # ---------------------------------------------------------------------------------------------- real-FS twin (replay)
 
 def good_bytes(ds):
-    k = abs(hash(ds)) % 97
-    return ("0,%d.5\n1,%d.25\n2,%d.0\n" % (k, k + 1, k + 2)).encode()
+    """a payload larger than two 8 KiB reads, so that chunked hashing matters"""
+    k = sum(ord(c) for c in ds) % 97
+    return "".join("%d,%d.%03d\n" % (i, k + i % 7, i % 1000) for i in range(1800)).encode()
 
 
 class RealEnv:
@@ -65,7 +66,7 @@ class RealEnv:
     def payload_bytes(self, ds, klass):
         b = good_bytes(ds)
         if klass == 1:
-            b = b.replace(b"0,", b"7,", 1)
+            b = b[:-6] + b"9" + b[-5:]            # corrupted near the END (beyond the first read)
         elif klass == 2:
             b = b[: len(b) // 2]
         return gzip_mod.compress(b) if self.gz and klass != 2 else (gzip_mod.compress(b)[:10] if self.gz else b)
@@ -163,6 +164,12 @@ class RealEnv:
                 env.sleeps += 1
                 env.effect("sleep")
 
+        class _Shutil:
+            @staticmethod
+            def rmtree(p, ignore_errors=False, **kw):
+                if env.effect("rmtree", p):
+                    shutil.rmtree(p, ignore_errors=ignore_errors)
+
         class BufferedWriter:
             """emulates a buffered file object under process kills: bytes reach the file only on close / release"""
 
@@ -214,7 +221,7 @@ class RealEnv:
                     return
                 pickle.dump(obj, f, *a, **kw)
 
-        repl = {"os": _OS, "path": _Path, "makedirs": makedirs, "environ": _Environ, "pickle": _Pickle, "time": _Time,
+        repl = {"os": _OS, "path": _Path, "makedirs": makedirs, "environ": _Environ, "pickle": _Pickle, "time": _Time, "shutil": _Shutil,
                 "TemporaryDirectory": TD, "urlretrieve": urlretrieve, "open": open_}
         saved, missing = {}, object()
         for k, v in repl.items():
@@ -503,6 +510,33 @@ class TwoDatasets(Family):
                           all(o != res.origin for w, o in seen.items() if w != which), {"loader": which, "origin": str(res.origin)})
 
 
+def shared_paths(ctx, n, present):
+    """paths touched by at least two of n loaders run one after the other (dry run on a fresh environment)"""
+    env = make_env(ctx)
+    try:
+        remote = register(env, "dsA")
+        touched = []
+        with env.installed() as base:
+            if not ctx.symbolic:
+                return set()
+            if present:
+                call(base, remote, "dsA-cache", "fam")
+                env.restart()
+            for i in range(n):
+                start = len(env.access)
+                env.restart()
+                # every loader starts from the same situation (cache absent or present): forget what the previous did
+                call(base, remote, "dsA-cache", "fam", download_even_if_available=not present and i > 0)
+                touched.append({p for p in env.access[start:] if p})
+        shared = set()
+        for i in range(len(touched)):
+            for j in range(i + 1, len(touched)):
+                shared |= touched[i] & touched[j]
+        return {p for p in shared if not p.endswith("/tmp-private")}
+    finally:
+        env.cleanup()
+
+
 class Concurrent(Family):
     name = "concurrent-loaders"
     doc = "n loaders of the same dataset, every interleaving of the calls that touch the shared cache path"
@@ -523,7 +557,9 @@ class Concurrent(Family):
                 if present:
                     call(base, remote, fname, folder)
                     env.restart()
-                env.shared = {fp}
+                # scheduling points: every path that more than one loader touches (found by a sequential dry run on a
+                # scratch copy of the model / directory), not just the final cache path
+                env.shared = shared_paths(ctx, n, present) | {fp}
                 picks = []
 
                 def choose(alive):
